@@ -166,7 +166,7 @@ func c05(x *ctx) {
 		policy string
 	}
 	var pks []pk
-	maxDev := 40
+	maxDev := 64
 	if thorough {
 		maxDev = 120
 	}
